@@ -389,7 +389,7 @@ func init() {
 		r := p.bigTerm(fr, a[2]) // the integer whose LE bytes are enc(R)
 		s := p.bigTerm(fr, a[3])
 		rbv := p.lowBits(r, 256)
-		g, ok := p.encTab[rbv]
+		g, ok := p.encLookup(rbv)
 		if !ok {
 			panic(unsupported("edwards.Verify: r is not structurally the encoding of a known point"))
 		}
@@ -419,8 +419,8 @@ func init() {
 		if len(sig) != 64 {
 			return false
 		}
-		gA, okA := p.encTab[p.leBytesToBV(pub)]
-		gR, okR := p.encTab[p.leBytesToBV(sig[:32])]
+		gA, okA := p.encLookup(p.leBytesToBV(pub))
+		gR, okR := p.encLookup(p.leBytesToBV(sig[:32]))
 		if !okA || !okR {
 			panic(unsupported(fmt.Sprintf("ed25519.Verify: key or R is not structurally the encoding of a known point (key %v: %.120s; R %v: %.120s)", okA, p.leBytesToBV(pub), okR, p.leBytesToBV(sig[:32]))))
 		}
@@ -432,6 +432,26 @@ func init() {
 		eqT := c.Eq(c.Mod(c.Add(gR.tau, c.Mul(h, gA.tau)), c.IntC64(8)), c.IntC64(0))
 		return normBool(c.And(okS, eqD, eqT))
 	}
+}
+
+// encLookup finds the group element of a 32-byte point encoding: a symbolic encoding built by
+// encPointBV on this path, or a CONCRETE encoding of a concrete point whose group element is
+// known on this path (k*B computed with a concrete k, the base point, the identity).
+func (p *pathRun) encLookup(bv *smt.Term) (geGhost, bool) {
+	if g, ok := p.encTab[bv]; ok {
+		return g, true
+	}
+	if !bv.IsConst() {
+		return geGhost{}, false
+	}
+	y := new(big.Int).And(bv.Val, new(big.Int).Sub(pow2(255), big.NewInt(1)))
+	sign := bv.Val.Bit(255)
+	for _, q := range p.concPts {
+		if q.curve == "ed25519" && q.y.Cmp(y) == 0 && q.x.Bit(0) == sign {
+			return geGhost{q.d, q.tau}, true
+		}
+	}
+	return geGhost{}, false
 }
 
 // edChallenge = SHA-512(enc(R) || enc(A) || M) as a little-endian integer mod q, built with
